@@ -450,6 +450,9 @@ def chain(draw, lid, direction, eq_json, spans=(1, 3), fused=True, user_amps=Tru
         if raman and draw(st.integers(0, 3)) == 0 and not isinstance(p['loss_coef'], dict):
             f['type'] = 'RamanFiber'
             f['type_variety'] = 'SSMF'
+            # RamanFiber needs numeric connector losses at construction (pump power is referred through con_out)
+            p['con_in'] = p['con_in'] if p.get('con_in') is not None else 0.5
+            p['con_out'] = p['con_out'] if p.get('con_out') is not None else 0.5
             f['operational'] = {'temperature': 283, 'raman_pumps': [
                 {'power': draw(st.sampled_from([0.2, 0.25])), 'frequency': 205e12, 'propagation_direction': 'counterprop'},
                 {'power': draw(st.sampled_from([0.2, 0.3])), 'frequency': 201e12, 'propagation_direction': 'counterprop'}]}
